@@ -8,6 +8,7 @@
  *   codecx c04 <tier>          collect() operation sequences vs greedy packer
  *   codecx c20 <tier>          assign_codes() vs optimal length-limited cost
  *   codecx c01 <tier>          codec chain round trip over small scopes
+ *   codecx bwt <tier>          divbwt() vs sorted cyclic rotations
  *   codecx c09 <tier> FILE     retrieve()/emit() suspended at every position
  *
  * Output: lines "VIOL <text>" (at most 20 per leg) and one final line
@@ -801,6 +802,170 @@ leg_c01(void)
 }
 
 /* ------------------------------------------------------------------------ */
+/* C01(a2): divbwt() against a reference Burrows-Wheeler transform           */
+/* The reference sorts the n cyclic rotations by prefix doubling (ranks of   */
+/* 2^k-byte prefixes, qsort per round); L[i] = byte before rotation i.  The  */
+/* returned origin must name a row equal to the input (any row of the tie    */
+/* block when the input is a power of a shorter word).                       */
+
+static unsigned long bwt_strings, bwt_bytes, bwt_fam[8];
+static int *bw_rank, *bw_tmp, *bw_rot, bw_k, bw_n;
+static int32_t *bw_SA, *bw_bucket;
+static uint8_t *bw_T;
+#define BW_MAX 20000
+
+static int
+bw_cmp(const void *pa, const void *pb)
+{
+  int a = *(const int *)pa, b = *(const int *)pb, x, y;
+  if (bw_rank[a] != bw_rank[b]) return bw_rank[a] < bw_rank[b] ? -1 : 1;
+  x = a + bw_k; if (x >= bw_n) x -= bw_n;
+  y = b + bw_k; if (y >= bw_n) y -= bw_n;
+  return bw_rank[x] < bw_rank[y] ? -1 : bw_rank[x] > bw_rank[y];
+}
+
+static void
+bwt_one(const uint8_t *d, int n, int fam)
+{
+  int i, pidx;
+  if (!bw_rank) {
+    bw_rank = malloc(sizeof(int) * BW_MAX); bw_tmp = malloc(sizeof(int) * BW_MAX); bw_rot = malloc(sizeof(int) * BW_MAX);
+    bw_SA = malloc(sizeof(int32_t) * (BW_MAX + 64)); bw_bucket = malloc(sizeof(int32_t) * (65536 + 256)); bw_T = malloc(BW_MAX + 64);
+  }
+  if (n < 1 || n > BW_MAX) abort();
+  bwt_strings++; bwt_bytes += n; bwt_fam[fam]++;
+  /* reference */
+  bw_n = n;
+  for (i = 0; i < n; i++) { bw_rot[i] = i; bw_rank[i] = d[i]; }
+  for (bw_k = 1;; bw_k *= 2) {
+    qsort(bw_rot, n, sizeof(int), bw_cmp);
+    bw_tmp[bw_rot[0]] = 0;
+    for (i = 1; i < n; i++)
+      bw_tmp[bw_rot[i]] = bw_tmp[bw_rot[i - 1]] + (bw_cmp(&bw_rot[i - 1], &bw_rot[i]) != 0);
+    memcpy(bw_rank, bw_tmp, sizeof(int) * n);
+    if (bw_rank[bw_rot[n - 1]] == n - 1 || 2 * bw_k >= n) break;   /* ranks now cover 2*bw_k >= n bytes; bw_k < n keeps x, y in range */
+  }
+  /* implementation */
+  memcpy(bw_T, d, n);
+  memset(bw_T + n, 0xEE, 32);
+  for (i = 0; i < n + 64; i++) bw_SA[i] = 0x5a5a5a5a;
+  pidx = divbwt(bw_T, bw_SA, bw_bucket, n);
+  if (pidx < 0 || pidx >= n) {
+    VIOL("bwt: family %d n=%d input %.*s: origin %d out of range", fam, n, n < 48 ? n : 48, (const char *)d, pidx);
+    return;
+  }
+  if (bw_rank[bw_rot[pidx]] != bw_rank[0]) {
+    VIOL("bwt: family %d n=%d input %.*s: origin %d names rotation %d, which differs from the input", fam, n, n < 48 ? n : 48, (const char *)d, pidx, bw_rot[pidx]);
+    return;
+  }
+  for (i = 0; i < n; i++) {
+    int r = bw_rot[i] ? bw_rot[i] - 1 : n - 1;
+    if ((uint32_t)bw_SA[i] != d[r]) {
+      VIOL("bwt: family %d n=%d input %.*s: transformed byte %d is %d, sorted rotations give %d", fam, n, n < 48 ? n : 48, (const char *)d, i, (int)bw_SA[i], d[r]);
+      return;
+    }
+  }
+  for (i = n; i < n + 64; i++)
+    if (bw_SA[i] != 0x5a5a5a5a) { VIOL("bwt: family %d n=%d: SA[%d] beyond the block was written", fam, n, i); return; }
+}
+
+static void
+leg_bwt(void)
+{
+  static uint8_t buf[BW_MAX + 8], gen[BW_MAX + 8];
+  unsigned len;
+  int i, n;
+  /* family 0: every string over {a,b}; family 1: over {a,b,c} */
+  for (len = 1; len <= (tier_thorough ? 20u : tier_san ? 12u : 16u); len++) {
+    unsigned long v, nv = 1ul << len;
+    for (v = 0; v < nv; v++) {
+      for (i = 0; i < (int)len; i++) buf[i] = 'a' + ((v >> i) & 1);
+      bwt_one(buf, len, 0);
+    }
+  }
+  for (len = 1; len <= (tier_thorough ? 12u : tier_san ? 7u : 10u); len++) {
+    unsigned long v, nv = 1;
+    for (i = 0; i < (int)len; i++) nv *= 3;
+    for (v = 0; v < nv; v++) {
+      unsigned long t = v;
+      for (i = 0; i < (int)len; i++) { buf[i] = 'a' + t % 3; t /= 3; }
+      bwt_one(buf, len, 1);
+    }
+  }
+  /* family 2: powers of every word over {a,b} of length 1..P, cut at n, with no / one changed byte:
+     long common prefixes between all suffixes -- the tandem-repeat sorter and the merge of sorted blocks */
+  {
+    static const int ns_q[] = { 40, 300, 2300, 0 }, ns_t[] = { 40, 300, 1100, 2300, 5000, 12000, 0 }, ns_s[] = { 40, 700, 0 };
+    const int *ns = tier_thorough ? ns_t : tier_san ? ns_s : ns_q;
+    unsigned P = tier_thorough ? 9 : tier_san ? 4 : 7;
+    for (len = 1; len <= P; len++) {
+      unsigned long v;
+      for (v = 0; v < (1ul << len); v++) {
+        int ni;
+        for (ni = 0; ns[ni]; ni++) {
+          int pert;
+          n = ns[ni];
+          for (i = 0; i < n; i++) buf[i] = 'a' + ((v >> (i % len)) & 1);
+          for (pert = 0; pert < 9; pert++) {
+            static const int where[4] = { 0, 1, 2, 3 };
+            int pos = pert == 0 ? -1 : where[(pert - 1) % 4] == 0 ? 0 : where[(pert - 1) % 4] == 1 ? n / 2 : where[(pert - 1) % 4] == 2 ? n - len - 1 : n - 1;
+            uint8_t old;
+            if (pert && pos < 0) continue;
+            if (pert && !tier_thorough && n >= 2000 && (v + pert) % 3) continue;
+            if (pert) { old = buf[pos]; buf[pos] = pert <= 4 ? (old == 'a' ? 'b' : 'a') : 'c'; }
+            bwt_one(buf, n, 2);
+            if (pert) buf[pos] = old;
+          }
+        }
+      }
+    }
+  }
+  /* family 3: every prefix of the Fibonacci, Thue-Morse, paper-folding and period-doubling words */
+  {
+    int N = tier_thorough ? 6000 : tier_san ? 400 : 1500, w;
+    for (w = 0; w < 4; w++) {
+      if (w == 0) { int a = 1, b = 2; gen[0] = 'a'; gen[1] = 'b';        /* Fibonacci: s_k = s_{k-1} s_{k-2} */
+        while (b < N) { int c = a + b > N ? N - b : a; memcpy(gen + b, gen, c); { int t = b; b += c; a = t; } if (c < a && b >= N) break; } }
+      else if (w == 1) for (i = 0; i < N; i++) gen[i] = 'a' + (__builtin_popcount(i) & 1);
+      else if (w == 2) for (i = 0; i < N; i++) { unsigned k = i + 1; while (!(k & 1)) k >>= 1; gen[i] = 'a' + ((k >> 1) & 1); }
+      else for (i = 0; i < N; i++) gen[i] = 'a' + (__builtin_ctz(i + 1) & 1);
+      for (n = 1; n <= N; n++) bwt_one(gen, n, 3);
+    }
+  }
+  /* family 4: many buckets: i*k mod 256 for every odd k (and k with small period), three lengths */
+  {
+    int k;
+    for (k = 0; k < 256; k += (tier_thorough ? 1 : tier_san ? 16 : 3)) {
+      static const int ls[] = { 255, 256, 257, 1000, 3000 };
+      int li;
+      for (li = 0; li < 5; li++) {
+        n = ls[li];
+        for (i = 0; i < n; i++) buf[i] = (uint8_t)(i * k + (i >> 8));
+        bwt_one(buf, n, 4);
+      }
+    }
+  }
+  /* family 5: two or three runs x^i y^j x^k (what the initial run-length coder leaves are runs up to 4, 5;
+     longer ones reach divbwt through the count bytes), and single-symbol blocks */
+  {
+    int a, b, c;
+    static const int rl[] = { 0, 1, 2, 3, 4, 5, 7, 8, 9, 16, 17, 255, 256, 1023, 1024, 1025, 2050 };
+    int nr = sizeof rl / sizeof *rl;
+    for (a = 1; a < nr; a++) for (b = 0; b < nr; b++) for (c = 0; c < nr; c++) {
+      n = 0;
+      if (tier_san && (a + b + c) % 3) continue;
+      memset(buf + n, 'x', rl[a]); n += rl[a];
+      memset(buf + n, 'y', rl[b]); n += rl[b];
+      memset(buf + n, 'x', rl[c]); n += rl[c];
+      bwt_one(buf, n, 5);
+      if (rl[b]) { buf[rl[a]] = 'z'; bwt_one(buf, n, 5); }
+    }
+  }
+  printf("STAT leg=bwt strings=%lu bytes=%lu binary=%lu ternary=%lu powers=%lu automatic_words=%lu many_buckets=%lu runs=%lu violations=%lu\n",
+         bwt_strings, bwt_bytes, bwt_fam[0], bwt_fam[1], bwt_fam[2], bwt_fam[3], bwt_fam[4], bwt_fam[5], nviol);
+}
+
+/* ------------------------------------------------------------------------ */
 /* C09(a): retrieve() and emit() suspended at every position                 */
 
 static unsigned long c09_streams, c09_blocks, c09_retr_runs, c09_emit_runs, c09_resume[8];
@@ -1059,6 +1224,7 @@ main(int argc, char **argv)
   else if (!strcmp(argv[1], "c04")) leg_c04();
   else if (!strcmp(argv[1], "c20")) leg_c20();
   else if (!strcmp(argv[1], "c01")) leg_c01();
+  else if (!strcmp(argv[1], "bwt")) leg_bwt();
   else if (!strcmp(argv[1], "c09") && argc > 3) leg_c09(argv[3]);
   else return 2;
   return 0;
